@@ -1,7 +1,12 @@
 /* bscmd: the one deterministic command used by every generated build description / ninja manifest.
  *
  *   bscmd <name> [--salt S] [--in F]... [--out F]... [--reads-file F] [--dep-out F --dep-style makefile|depinfo]
- *         [--env VAR]... [--fail-file F] [--sleep-ms N] [--log F]
+ *         [--env VAR]... [--fail-file F] [--sleep-ms N] [--log F] [--in-rest F...] [--log-end] [--restat]
+ *
+ *   --in-rest   every remaining word is an input (ninja: $in expands to several words)
+ *   --log-end   (C18) also append "<name> <monotonic ts> end <exit code>" to the run log on every exit path that is not a signal
+ *   --restat    (C18) an output whose content is already what would be written is left untouched (mtime kept), like a
+ *               compiler wrapper that does not rewrite unchanged outputs
  *
  * 1. appends "<name>\n" (and a monotonic start timestamp) to the run log with ONE O_APPEND write
  * 2. H = fnv1a64 over: name, salt, for each --env VAR: VAR=value, for each --in F: F + content (or <missing>),
@@ -43,11 +48,26 @@ static void hfile(const char* path) {
 }
 
 #define MAXA 256
+static const char* g_endlog = NULL; static const char* g_name = "";
+static int finish(int code) {
+  if (g_endlog) {
+    struct timespec ts; clock_gettime(CLOCK_MONOTONIC, &ts);
+    char line[1024]; int n = snprintf(line, sizeof line, "%s %lld.%09ld end %d\n", g_name, (long long)ts.tv_sec, ts.tv_nsec, code);
+    int fd = open(g_endlog, O_WRONLY | O_CREAT | O_APPEND, 0644);
+    if (fd >= 0) { if (write(fd, line, (size_t)n) < 0) {} close(fd); }
+  }
+  return code;
+}
+static int same_content(const char* path, const char* want) {
+  FILE* f = fopen(path, "r"); if (!f) return 0;
+  char buf[2048]; size_t n = fread(buf, 1, sizeof buf - 1, f); int more = fgetc(f) != EOF; fclose(f);
+  buf[n] = 0; return !more && n == strlen(want) && !memcmp(buf, want, n);
+}
 int main(int argc, char** argv) {
   if (argc < 2) return 2;
   const char* name = argv[1];
   const char *salt = "", *readsFile = NULL, *depOut = NULL, *depStyle = "makefile", *failFile = NULL, *logf = getenv("BSCMD_LOG");
-  const char* ins[MAXA]; int nin = 0; const char* outs[MAXA]; int nout = 0; const char* envs[MAXA]; int nenv = 0; long sleepMs = 0; int depCorrupt = 0;
+  const char* ins[MAXA]; int nin = 0; const char* outs[MAXA]; int nout = 0; const char* envs[MAXA]; int nenv = 0; long sleepMs = 0; int depCorrupt = 0; int logEnd = 0, restat = 0;
   for (int i = 2; i < argc; ++i) {
     const char* a = argv[i]; const char* v = i + 1 < argc ? argv[i + 1] : "";
     if (!strcmp(a, "--salt")) { salt = v; ++i; }
@@ -61,6 +81,8 @@ int main(int argc, char** argv) {
     else if (!strcmp(a, "--fail-file")) { failFile = v; ++i; }
     else if (!strcmp(a, "--sleep-ms")) { sleepMs = atol(v); ++i; }
     else if (!strcmp(a, "--log")) { logf = v; ++i; }
+    else if (!strcmp(a, "--log-end")) { logEnd = 1; }
+    else if (!strcmp(a, "--restat")) { restat = 1; }
     else if (!strcmp(a, "--in-rest")) { for (++i; i < argc && nin < MAXA; ++i) ins[nin++] = argv[i]; }   /* ninja: $in expands to several words */
   }
   if (logf) {
@@ -68,6 +90,7 @@ int main(int argc, char** argv) {
     char line[1024]; int n = snprintf(line, sizeof line, "%s %lld.%09ld start\n", name, (long long)ts.tv_sec, ts.tv_nsec);
     int fd = open(logf, O_WRONLY | O_CREAT | O_APPEND, 0644);
     if (fd >= 0) { if (write(fd, line, (size_t)n) < 0) {} close(fd); }
+    if (logEnd) { g_endlog = logf; g_name = name; }
   }
   if (sleepMs > 0) { struct timespec ts = {sleepMs / 1000, (sleepMs % 1000) * 1000000L}; nanosleep(&ts, NULL); }
   hs(name); hs(salt);
@@ -83,18 +106,19 @@ int main(int argc, char** argv) {
   /* failure directives */
   char fmode[64] = ""; long farg = 0;
   if (failFile) { FILE* f = fopen(failFile, "r"); if (f) { if (fscanf(f, "%63s %ld", fmode, &farg) < 1) fmode[0] = 0; fclose(f); } }
-  if (!strcmp(fmode, "exit")) return (int)farg;
+  if (!strcmp(fmode, "exit")) return finish((int)farg);
   if (!strcmp(fmode, "signal")) { kill(getpid(), (int)farg); pause(); }
-  if (!strcmp(fmode, "missing-read")) return 3;
+  if (!strcmp(fmode, "missing-read")) return finish(3);
   for (int i = 0; i < nout; ++i) {
+    if (restat) { char want[1200]; snprintf(want, sizeof want, "%016llx %s %d\n", (unsigned long long)H, name, i); if (same_content(outs[i], want)) continue; }
     FILE* f = fopen(outs[i], "w");
-    if (!f) { fprintf(stderr, "bscmd %s: cannot write %s: %s\n", name, outs[i], strerror(errno)); return 4; }
+    if (!f) { fprintf(stderr, "bscmd %s: cannot write %s: %s\n", name, outs[i], strerror(errno)); return finish(4); }
     fprintf(f, "%016llx %s %d\n", (unsigned long long)H, name, i);
-    if (fclose(f) != 0) return 4;
+    if (fclose(f) != 0) return finish(4);
   }
   if (depOut) {
     FILE* f = fopen(depOut, "w");
-    if (!f) return 5;
+    if (!f) return finish(5);
     if (depCorrupt && !strcmp(depStyle, "depinfo")) {
       fputc(0x00, f); fputs("bscmd-1", f); fputc(0, f); fputc(0x10, f); fputs("/unterminated/input/record", f);   /* no NUL terminator */
     } else if (depCorrupt) {
@@ -113,6 +137,6 @@ int main(int argc, char** argv) {
     }
     fclose(f);
   }
-  if (!strcmp(fmode, "late-exit")) return (int)farg;
-  return 0;
+  if (!strcmp(fmode, "late-exit")) return finish((int)farg);
+  return finish(0);
 }
